@@ -536,6 +536,12 @@ fn shell_level(ctx: &Ctx, n: usize) {
                 } else {
                     "none"
                 };
+                // pattern matching in case items and trims does not depend on noglob (that option only
+                // turns pathname expansion off) nor on the other options toggled here
+                if rng.chance(30) {
+                    script.push_str(rng.pick(&["set -f\n", "set +f\n", "set -o noglob\n", "set -fC\n", "set -a\n", "set +a +C\n", "set -fu\n", "set +u\n"]));
+                    ctx.count("shell_scripts_option_toggles", 1);
+                }
                 script.push_str(&format!(
                     "v={}\ncase \"$v\" in {}) probe case first;; {}) probe case second;; *) probe case none;; esac\n",
                     sh_quote(&text),
